@@ -1,5 +1,7 @@
 import Xp.Base.JsonIO
 import Xp.Model.C17
+import Xp.Model.C17Rec
+import Xp.Model.C17ResF
 /-
 C17 driver: parses one scenario, runs the model, prints the observation in the
 canonical form of harness/main/c17*.go. Never used in a theorem.
@@ -65,6 +67,28 @@ def vErrStr : VErr → String
   | .diffDigests => "diffDigests"
   | .diffTypes => "diffTypes"
   | .noValidVersion => "noValidVersion"
+
+def errClassOf : String → ErrClass
+  | "notFound" => .notFound
+  | "alreadyExists" => .alreadyExists
+  | "conflict" => .conflict
+  | "invalid" => .invalid
+  | "forbidden" => .forbidden
+  | "timeout" => .timeout
+  | "transport" => .transport
+  | "deadline" => .deadline
+  | _ => .internal
+
+def errClassStr : ErrClass → String
+  | .notFound => "notFound"
+  | .alreadyExists => "alreadyExists"
+  | .conflict => "conflict"
+  | .invalid => "invalid"
+  | .forbidden => "forbidden"
+  | .timeout => "timeout"
+  | .internal => "internal"
+  | .transport => "transport"
+  | .deadline => "deadline"
 
 def sortErrStr : SortErr → String
   | .cycle _ => "cycle"
@@ -166,16 +190,34 @@ def envOf (scn : Json) : Interf :=
   let e := obj scn "env"
   { rmGet := optPkgs e "rmGet", rmUpd := optPkgs e "rmUpd", refresh := optPkgs e "refresh", upd := optPkgs e "upd" }
 
+def resOutJson (r : ResOut) : List (String × Json) :=
+  [("found", .num (Lean.JsonNumber.fromInt r.found)), ("installed", .num (Lean.JsonNumber.fromInt r.installed)),
+   ("invalid", .num (Lean.JsonNumber.fromInt r.invalid)), ("err", .str (resErrStr r.err)),
+   ("lock", Json.arr (r.lock.map pkgJson).toArray)]
+
 def resHandler (scn : Json) : Json × Bool × String :=
   let o := mkOracle (obj scn "oracle")
+  let upg := bool scn "upg"
   let lock := (arr scn "lock").map pkgOf
   let self := pkgOf (obj scn "self")
-  let r := resolveI false o (bool scn "upg") lock self (envOf scn)
-  let out := Json.mkObj [("found", .num (Lean.JsonNumber.fromInt r.found)), ("installed", .num (Lean.JsonNumber.fromInt r.installed)),
-    ("invalid", .num (Lean.JsonNumber.fromInt r.invalid)), ("err", .str (resErrStr r.err)),
-    ("lock", Json.arr (r.lock.map pkgJson).toArray)]
+  let fault : Option Fault := if has scn "fault" then
+      some ⟨nat (obj scn "fault") "k", errClassOf (str (obj scn "fault") "class")⟩ else none
+  let rf := resolveF o upg (if bool scn "absent" then none else some lock) self (envOf scn) fault
+  let ferr := match rf.err with
+    | .res e => resErrStr e
+    | .getOrCreate c => "getOrCreate:" ++ errClassStr c
+    | .api c => if c == .conflict then "conflict" else "api:" ++ errClassStr c
+  let r : ResOut := ⟨rf.found, rf.installed, rf.invalid, match rf.err with | .res e => e | _ => .conflict, rf.lock.getD []⟩
   -- model-side monitor: satisfied only if every direct dependency is a lock package
-  let ok := r.err != .none || self.deps.all (fun e => r.lock.any (fun p => p.source == e.pkg))
+  let okOf := fun (r : ResOut) (self : Pkg) => r.err != .none || self.deps.all (fun e => r.lock.any (fun p => p.source == e.pkg))
+  -- further Resolve calls of the same manager: the model is per call, on the Lock as it is then
+  let (_, more, ok) := (arr scn "more").foldl (fun (acc : List Pkg × List Json × Bool) j =>
+    let self' := pkgOf (obj j "self")
+    let lock' := (optPkgs j "set").getD acc.1
+    let r' := resolveI false o upg lock' self' Interf.quiet
+    (r'.lock, acc.2.1 ++ [Json.mkObj (resOutJson r')], acc.2.2 && okOf r' self')) (r.lock, [], okOf r self)
+  let out := Json.mkObj ((resOutJson r).map (fun kv => if kv.1 == "err" then ("err", Json.str ferr) else kv) ++
+    [("more", Json.arr more.toArray)])
   (out, ok, if ok then "" else "C17:model-satisfied-with-missing-direct")
 
 def recErrStr : RecErr → String
@@ -213,6 +255,112 @@ def recHandler (scn : Json) : Json × Bool × String :=
     ("resolved", .str (match r.resolved with | some true => "True" | some false => "False" | none => ""))]
   (out, true, "")
 
+/-! ### the lock reconciler's world (kind "recw") -/
+
+def resolvedOf : String → Option Bool
+  | "True" => some true
+  | "False" => some false
+  | _ => none
+
+def resolvedStr : Option Bool → String
+  | some true => "True"
+  | some false => "False"
+  | none => ""
+
+def wlockOf (j : Json) (rv : Nat) : LockObj :=
+  ⟨(arr j "pkgs").map pkgOf, bool j "fin", resolvedOf (str j "resolved"), rv⟩
+
+def initWorld (scn : Json) : RWorld :=
+  let lock := if has scn "lock" then some (wlockOf (obj scn "lock") 1) else none
+  let (pkgs, next) := (arr scn "pkgs").foldl (fun (acc : List PkgObj × Nat) j =>
+    let k := str j "kind"; let nm := str j "name"
+    if acc.1.any (sameKey k nm) then acc else (acc.1 ++ [⟨k, nm, optStr j "image", acc.2⟩], acc.2 + 1)) ([], 2)
+  let clock := if bool scn "clockFresh" then lock
+    else if has scn "clock" then some (wlockOf (obj scn "clock") 0) else none
+  let cpkgs := (arr scn "cpkgs").filterMap fun j =>
+    let k := str j "kind"; let nm := str j "name"
+    if bool j "fresh" then pkgs.find? (sameKey k nm) else some ⟨k, nm, optStr j "image", 0⟩
+  let tags := (arr scn "tags").foldl (fun acc j =>
+    setTagsOf (str j "repo") (if bool j "fail" then none else some (strs j "tags")) acc) []
+  { lock := lock, pkgs := pkgs, clock := clock, cpkgs := cpkgs, tags := tags, next := next }
+
+def wactOf (j : Json) : Nat × WAct :=
+  (nat j "k", match str j "do" with
+    | "setLock" => .setLock ((arr j "pkgs").map pkgOf)
+    | "delLock" => .delLock
+    | "setPkg" => .setPkg (str j "kind") (str j "name") (optStr j "image")
+    | "delPkg" => .delPkg (str j "kind") (str j "name")
+    | "syncLock" => .syncLock
+    | "syncPkg" => .syncPkg (str j "kind") (str j "name")
+    | "setTags" => .setTags (str j "repo") (if bool j "fail" then none else some (strs j "tags"))
+    | _ => .err (errClassOf (str j "class")))
+
+def reqStr : Req → String
+  | .getLock => "get:lock"
+  | .updateLock _ fin _ => s!"update:lock:fin={fin}"
+  | .statusLock c _ => "status:lock:" ++ resolvedStr c
+  | .listPkgs k => "list:" ++ k
+  | .pullSecret _ => "secret"
+  | .tags r => "tags:" ++ r
+  | .createPkg k n i => s!"create:{k}/{n}={i}"
+  | .updatePkg k n i _ => s!"update:{k}/{n}={i}"
+  | .getPkg k n => s!"get:{k}/{n}"
+
+def respStr : Option Resp → String
+  | some (.err e) => errClassStr e
+  | _ => "ok"
+
+def rErrStr : RErr → String
+  | .none => ""
+  | .getLock e => "getLock:" ++ errClassStr e
+  | .removeFinalizer e => "removeFinalizer:" ++ errClassStr e
+  | .addFinalizer e => "addFinalizer:" ++ errClassStr e
+  | .status e => "status:" ++ errClassStr e
+  | .buildDag => "buildDag"
+  | .sortDag => "sortDag"
+  | .depType => "depType"
+  | .list e => "list:" ++ errClassStr e
+  | .findInstall e => "findInstall:" ++ vErrStr e
+  | .pullInstall => "findInstall:pullConfig"
+  | .construct => "construct"
+  | .create e => "create:" ++ errClassStr e
+  | .createTaken => "create:nameTaken"
+  | .findUpdate e => "findUpdate:" ++ vErrStr e
+  | .pullUpdate => "findUpdate:pullConfig"
+  | .update e => "update:" ++ errClassStr e
+  | .panic => "panic"
+
+def worldJson (w : RWorld) : List (String × Json) :=
+  let (ls, lp) := match w.lock with
+    | none => ("absent", [])
+    | some l => (s!"fin={l.fin}/resolved={resolvedStr l.resolved}", l.pkgs)
+  [("lock", .str ls), ("lockPkgs", Json.arr (lp.map pkgJson).toArray),
+   ("pkgs", strsJson (sortStrs (w.pkgs.map fun p => s!"{p.kind}/{p.name}={p.image.getD "<none>"}")))]
+
+def recwHandler (scn : Json) : Json × Bool × String :=
+  let o := mkOracle (obj scn "oracle")
+  let refs : List (String × RefInfo) := (arr scn "refs").map fun j =>
+    (str j "s", ⟨str j "repo", str j "ident", str j "str", str j "name"⟩)
+  let kinds : List (String × String) := (arr scn "kinds").filterMap pairOf
+  let cfg : RCfg := { o := o, refOf := fun s => refs.lookup s, kindOf := fun id => (kinds.lookup id).getD "",
+                      upg := bool scn "upg", down := bool scn "down" }
+  let steps : List (List (Nat × WAct)) := (arr scn "steps").map fun st =>
+    match st with
+    | .arr a => a.toList.map wactOf
+    | _ => []
+  let (_, outs, ok) := steps.foldl (fun (acc : RWorld × List Json × Bool) acts =>
+    let w0 := acc.1.fresh
+    let env := scriptEnvW acts
+    let r := runE recSem env Plan.allOk 0 (reconcileP cfg) w0
+    let log := callLogE recSem env Plan.allOk 0 (reconcileP cfg) w0
+    let res : RRes := r.2.getD ⟨.panic, false⟩
+    let calls := log.map fun (rq, _, rs) => reqStr rq ++ ":" ++ respStr rs
+    let out := Json.mkObj ([("err", .str (rErrStr res.err)), ("requeue", .bool res.requeue),
+      ("calls", strsJson calls)] ++ worldJson r.1)
+    -- model-side monitor: at most one package write per Reconcile
+    (r.1, acc.2.1 ++ [out], acc.2.2 && decide (r.1.seen.writes ≤ 1))) (initWorld scn, [], true)
+  (Json.mkObj [("steps", Json.arr outs.toArray)], ok, if ok then "" else "C17:model-more-than-one-package-written")
+
 def handler : Handler := fun scn =>
   match str scn "kind" with
   | "dag" => .ok (dagHandler scn)
@@ -220,6 +368,7 @@ def handler : Handler := fun scn =>
   | "update" => .ok (updHandler scn)
   | "resolve" => .ok (resHandler scn)
   | "reconcile" => .ok (recHandler scn)
+  | "recw" => .ok (recwHandler scn)
   | k => .error s!"unknown scenario kind {k}"
 
 end Xp.C17
